@@ -1,6 +1,7 @@
 CONSTANTS
   Ext <- AllExtensions
   Conv = "bundled"
+  Defects = FALSE
   Mode = "bfs"
   Kernel = "struct"
   MaxBlocks = 4
